@@ -124,15 +124,19 @@ class ThreadWorker(Worker):
         if self._set_names:
             setthreadtitle(self.name, self)
 
-        self._startup_sync.set()
+        # from the moment the parent is released a termination request (an asynchronous exception) can arrive at any point
         try:
+            self._startup_sync.set()
             assert self.is_child
             self._init_child()
             self._result = (True, self.do_work())
         except BaseException as e:
-            logger.exception('Exception occurred while running the main function')
             self._result = (False, e)
+            logger.exception('Exception occurred while running the main function')
         finally:
+            if self._result is None:
+                # the handler above has been interrupted by a termination request before it could store the error
+                self._result = (False, WorkerTerminatedError())
             self._cleanup()
 
     def _cleanup(self):
